@@ -5,7 +5,7 @@ CONSTANTS
   MaxCalls = 4
   Chunks = {0}
   Ns = {2, 3}
-  Sizes = {0, 1, 5}
+  Sizes = {0, 5}
   NChange = TRUE
 INVARIANTS Offered_Inv LB_PicksFewest LB_Account Judge_Accepts
 CHECK_DEADLOCK FALSE
